@@ -445,7 +445,7 @@ class SVGPath(SVGShape, SVGCommandSeq):
         self._add_cmd("L", *args)
 
     def l(self, *args):
-        self._add_cmd("L", *args)
+        self._add_cmd("l", *args)
 
     def C(self, *args):
         self._add_cmd("C", *args)
